@@ -771,6 +771,25 @@ fn main() {
             e.extend_from_slice(&tail);
             cx.check(true, &e, "startup_empty_key");
         }
+        // invalid UTF-8 / Latin-1 bytes in a key and in a value of the parameter block
+        for (in_key, bad) in [(true, &[0xe9u8][..]), (false, &[0xe9u8][..]), (true, &[0xc3][..]), (false, &[0xff, 0xfe][..]), (false, &[0xed, 0xa0, 0x80][..])] {
+            let mut ps2 = ps.clone();
+            let mut k = b"user".to_vec();
+            let mut val = b"val".to_vec();
+            if in_key {
+                k.extend_from_slice(bad);
+            } else {
+                val.extend_from_slice(bad);
+            }
+            ps2.retain(|(k2, _)| *k2 != k);
+            ps2.insert(r.below(ps2.len() as u64 + 1) as usize, (k, val));
+            let mut e = enc_startup(v, &ps2);
+            e.extend_from_slice(&tail);
+            let got = cx.check(true, &e, "startup_invalid_utf8");
+            if !matches!(&got, Outc::Err(k, _) if k == "invalid-string") {
+                cx.rep.fail(FailKind::Oracle, None, "a startup packet with a parameter that is not valid UTF-8 is not rejected as an invalid string", &format!("startup {}\nreal: {:?}", hx(&e), got));
+            }
+        }
         let mut e = enc.clone();
         e.pop(); // drop the final terminator, fix the length
         let l = (e.len() as u32).to_be_bytes();
